@@ -17,8 +17,18 @@ from ..util import calls_in, assigned_value
 FILES_MOD = "windpyutils.files"
 
 
-def is_call_to(prog: Program, f: Func, e: ast.expr, name: str) -> bool:
-    return isinstance(e, ast.Call) and prog.external_name(f.mod, e.func) == name
+def is_call_to(prog: Program, f: Func, e: ast.expr, name: str, _depth: int = 0) -> bool:
+    """a call of the external function ``name``, directly or through a repository wrapper all of whose returns are such a call"""
+    if not isinstance(e, ast.Call):
+        return False
+    if prog.external_name(f.mod, e.func) == name:
+        return True
+    if _depth < 3 and isinstance(e.func, ast.Name) and not e.args and not e.keywords:
+        g = prog.functions.get(f"{f.mod.name}.{e.func.id}")
+        if g is not None and g.cls is None:
+            rets = [r for r in walk_own(g.node) if isinstance(r, ast.Return)]
+            return bool(rets) and all(r.value is not None and is_call_to(prog, g, r.value, name, _depth + 1) for r in rets)
+    return False
 
 
 class Family:
@@ -83,8 +93,25 @@ class Family:
                         ext = P.external_name(f.mod, n.value.func) if isinstance(n.value, ast.Call) else None
                         if ext in ("open", "mmap.mmap", "io.open"):
                             handles.add(d[1])
-                        elif ext == "os.getpid":
+                        elif ext == "os.getpid" or is_call_to(P, f, n.value, "os.getpid"):
                             pid = d[1]
+        self.foreign_identity = getattr(self, "foreign_identity", {})
+        if handles and pid is None:
+            # the owner is recorded, but not as os.getpid(): the field that close() resets to None together with the handle and that
+            # open() assigns from a call
+            for k in c.repo_mro():
+                f = k.methods.get("open")
+                cl = k.methods.get("close")
+                if f is None or cl is None or f.is_abstract or f.self_name is None:
+                    continue
+                cleared = {dotted(t)[1] for n in walk_own(cl.node) if isinstance(n, ast.Assign) and isinstance(n.value, ast.Constant)
+                           and n.value.value is None for t in n.targets if dotted(t) and len(dotted(t)) == 2 and dotted(t)[0] == cl.self_name}
+                for n in walk_own(f.node):
+                    if isinstance(n, ast.Assign) and len(n.targets) == 1 and isinstance(n.value, ast.Call):
+                        d = dotted(n.targets[0])
+                        if d and len(d) == 2 and d[0] == f.self_name and d[1] in cleared and d[1] not in handles:
+                            pid = d[1]
+                            self.foreign_identity[c.qual] = (f, n)
         if not handles or pid is None:
             raise AnalysisError(f"{c.short}: handle/pid fields not discoverable from open() (handles={handles}, pid={pid})")
         self.handles[c.qual] = handles
@@ -108,6 +135,15 @@ class Family:
             if helper:
                 break
         self.reopen_foreign_compare = getattr(self, "reopen_foreign_compare", {})
+        if helper is None and c.qual in self.foreign_identity:
+            for k in c.repo_mro():
+                for f in k.methods.values():
+                    if f.self_name is None or P.resolve(c, f.name) is not f:
+                        continue
+                    if any(isinstance(n, ast.Compare) and any(dotted(x) == (f.self_name, pid) for x in [n.left] + list(n.comparators))
+                           and not any(isinstance(x, ast.Constant) and x.value is None for x in [n.left] + list(n.comparators))
+                           for n in walk_own(f.node)):
+                        helper = f
         if helper is None:
             # a method that compares the pid field with something that is *not* os.getpid() (and not None) and calls close/open:
             # still the re-open helper, but its test is wrong; C18.R2 reports the operand
